@@ -22,13 +22,25 @@ DEPS["vcd"] = '"0.7.0"'      # the real crate (same version as /repo/Cargo.lock)
 
 # attribute sets. `small`: every big-integer entry point panics (E9) - decode/encode of <=64-bit values must not reach them.
 # `vcd`: Value::payload()/mask_xz() legitimately go through BigUint::from(u64) + BigUint::bit, so only the ValueBigUint
-# constructors / MaskCache::get are stubbed. `mod`: as `vcd` + Value::to_vcd_value replaced by its contract (proved separately).
+# constructors / MaskCache::get are stubbed. `fst`: as `vcd` + Value::to_vcd_value replaced by its contract (proved separately) + constant-capacity model of Vec::with_capacity.
 CTOR_STUBS = "\n".join(l for l in VL.STUB_ATTRS.splitlines() if "kani::stub(crate::value::" in l)
 ATTRS = {
     "vp_small": VL.STUB_ATTRS,
     "vp_vcd": CTOR_STUBS,
-    "vp_mod": CTOR_STUBS + "\n#[cfg_attr(kani, kani::stub(crate::value::Value::to_vcd_value, crate::spec::to_vcd_value_contract))]",
+    "vp_fst": CTOR_STUBS + "\n#[cfg_attr(kani, kani::stub(crate::value::Value::to_vcd_value, crate::spec::to_vcd_value_contract))]"
+              "\n#[cfg_attr(kani, kani::stub(std::vec::Vec::with_capacity, crate::spec::vec_with_capacity_64))]",
 }
+
+# accessors for the private fields of VcdValueIter, placed INSIDE `pub mod value` (E1: harness-side text, nothing of the repo is changed):
+# lets the harness put the iterator into an arbitrary state so that the loop-free `next` can be specified as a transition
+INNER = """
+pub mod vp_inner {
+    use super::{Value, VcdValueIter};
+    pub fn iter_at(value: Value, pos: u64) -> VcdValueIter { VcdValueIter { pos, value } }
+    pub fn iter_pos(it: &VcdValueIter) -> u64 { it.pos }
+    pub fn iter_value(it: &VcdValueIter) -> &Value { &it.value }
+}
+"""
 
 HARNESSES = [
     # name, kind, function decided, bound
@@ -38,17 +50,22 @@ HARNESSES = [
     ("roundtrip_decode_encode", "proof", "From<&Value> for Vec<SvLogicVecVal>", None),
     ("roundtrip_encode_decode", "proof", "From<&[SvLogicVecVal]> for Value", None),
     ("vcd_value_bit", "proof", "Value::to_vcd_value", None),
-    ("fst_bits", "bounded", "Value::to_fst_bits", "width<=8"),
-    ("vcd_iter_msb_first", "proof", "VcdValueIter::next", None),
-    ("vcd_iter_direct", "bounded", "VcdValueIter::next", "width<=8"),
+    ("fst_bits", "proof", "Value::to_fst_bits", None),
+    ("fst_bits_direct", "bounded", "Value::to_fst_bits", "width<=4"),
+    ("vcd_iter_init", "proof", "IntoIterator for &Value", None),
+    ("vcd_iter_step", "proof", "VcdValueIter::next", None),
+    ("vcd_iter_direct", "bounded", "VcdValueIter::next", "width<=4"),
     ("canary_encode", "canary", "From<&Value> for Vec<SvLogicVecVal>", None),
 ]
 
 TRUSTED = {
     r"kani::assume\(wf_sized": "harness precondition: representation invariant of a sized <=64-bit value (1 <= width <= 64, payload/mask_xz have no bit at or above "
                                "the width; established by unit value64 for every constructor/operation)",
-    r"kani::stub\(crate::value::Value::to_vcd_value": "modular step: in vcd_iter_msb_first Value::to_vcd_value is replaced by its executable contract spec::to_vcd_value_contract "
+    r"kani::stub\(crate::value::Value::to_vcd_value": "modular step: in fst_bits Value::to_vcd_value is replaced by its executable contract spec::to_vcd_value_contract "
                                                      "(which asserts its precondition); that the real function equals the contract for every wf value and every i is obligation kani:svlogic:vcd_value_bit",
+    r"kani::stub\(std::vec::Vec::with_capacity": "allocation model: in fst_bits Vec::with_capacity(n) is replaced by spec::vec_with_capacity_64 (asserts n <= 64, returns an empty "
+                                                  "vector of capacity 64): std only promises capacity >= n and the capacity is not observable in the result; fst_bits_direct "
+                                                  "(width<=4) runs the same statement with nothing replaced",
     r"kani::assume\(": "harness quantifier ranges (bit index / word index within the array or width; width range of the bounded stand-ins)",
 }
 TRUSTED.update(VL.STUB_TRUST)
@@ -57,12 +74,15 @@ TRUSTED.update(VL.STUB_TRUST)
 def expand(text):
     def f(m):
         return "#[cfg_attr(kani, kani::proof)]\n#[cfg_attr(kani, kani::unwind(%s))]\n%s" % (m.group(2), ATTRS[m.group(1)])
-    return re.sub(r"#\[(vp_small|vp_vcd|vp_mod)\((\d+)\)\]", f, text)
+    return re.sub(r"#\[(vp_small|vp_vcd|vp_fst)\((\d+)\)\]", f, text)
 
 
 def build(ctx, res):
     vtext, vitems = VL.value_module(ctx, extra_value_fns=EXTRA_VALUE_FNS, extra_items=EXTRA_ITEMS)
     raw = ctx.unit_file("svlogic", "harness.rs")
+    if not vtext.endswith("}\n"):
+        raise ExtractError("value module text does not end with its closing brace")
+    vtext = vtext[:-2] + INNER + "}\n"
     lib = VL.PRELUDE + vtext + VL.BIG_STUBS + expand(raw)
     declared = re.findall(r"#\[vp_\w+\(\d+\)\]\s*pub fn (\w+)\(\)", raw)
     if sorted(declared) != sorted(n for n, _, _, _ in HARNESSES):
@@ -74,8 +94,10 @@ def build(ctx, res):
         "encode (wf value, width 1..=64)": "len == ceil(width/32); for every word k, bit j: Annex-H meaning of (aval_k>>j, bval_k>>j) == bit 32k+j of the value, == 0 for padding bits >= width",
         "round trips": "encode(decode(s)) == s for every s of 1 and 2 words; decode(encode(v)) has v's payload and mask_xz, width rounded up to a multiple of 32, unsigned",
         "to_vcd_value": "for every i: u64: V0/V1/X/Z exactly for bit i of the value (bits >= width read 0); From<&Value> for vcd::Value is bit 0",
-        "to_fst_bits": "[bounded width<=8] length == width; entry width-1-k == '0'/'1'/'x'/'z' for bit k, for every k < width (MSB first)",
-        "VcdValueIter": "[all widths 1..=64, to_vcd_value by contract; + direct stand-in width<=8] yields exactly width items; the n-th item is bit width-1-n; then None",
+        "to_fst_bits": "[all widths 1..=64, to_vcd_value by its contract, constant-capacity Vec model; + direct stand-in width<=4] length == width; entry width-1-k == '0'/'1'/'x'/'z' for bit k, for every k < width (MSB first)",
+        "VcdValueIter": "into_iter starts at pos 0 with a copy of the value; next() in ANY state (value wf, pos: u64): pos < width -> Some(bit width-1-pos), pos+1; "
+                        "else None, state unchanged; value never changes. By induction: exactly width items, the n-th is bit width-1-n (MSB first), then None. "
+                        "+ direct whole-iteration stand-in width<=4",
         "requires": "wf_sized(v): 1 <= width <= 64 and payload/mask_xz have no bit at or above width (both signednesses)",
     })
     res.samples.append({"obligation": "kani:svlogic:encode_bits", "contract": res.clauses["encode (wf value, width 1..=64)"]})
